@@ -362,7 +362,11 @@ func c03RunJob(j *c03Job) (res c03Result) {
 	opts := c03Options(j, &tree, &code)
 	var leaked bool
 	if j.Entry == "eval" {
-		res.Main, leaked = guarded("Eval", func() error { _, e := vm.Eval(fsys, j.Fname, j.Src, opts...); return e })
+		res.Main, leaked = guarded("Eval", func() error {
+			rets, e := vm.Eval(fsys, j.Fname, j.Src, opts...)
+			c03Render(rets)
+			return e
+		})
 	} else {
 		res.Main, leaked = guarded("Load", func() error { return vm.Load(fsys, j.Arg, opts...) })
 	}
@@ -380,10 +384,10 @@ func c03RunJob(j *c03Job) (res c03Result) {
 			args[i] = c03Value(vm, a)
 		}
 		if c.Kind == "call" {
-			o, leaked = guarded("Call", func() error { _, e := vm.Call(c.Name, c.XRets, args...); return e })
+			o, leaked = guarded("Call", func() error { rets, e := vm.Call(c.Name, c.XRets, args...); c03Render(rets); return e })
 		} else {
 			fn := c03Value(vm, c.Fn)
-			o, leaked = guarded("Func", func() error { _, e := vm.Func(fn, c.XRets, args...); return e })
+			o, leaked = guarded("Func", func() error { rets, e := vm.Func(fn, c.XRets, args...); c03Render(rets); return e })
 		}
 		o.Stage = "run"
 		res.Calls = append(res.Calls, o)
@@ -393,6 +397,14 @@ func c03RunJob(j *c03Job) (res c03Result) {
 		}
 	}
 	return
+}
+
+// c03Render does what a host does with the values it gets back: print them
+func c03Render(rets []g.Value) {
+	for _, v := range rets {
+		_ = v.String()
+	}
+	_ = fmt.Sprint(rets)
 }
 
 func c03Classify(o *c03Obs) {
@@ -444,7 +456,37 @@ type c03Death struct {
 	ID     int
 	Stderr string
 	Why    string
-	InRun  bool // the dying goroutine was inside VM.exec (the script was running)
+	InRun  bool   // the dying goroutine was inside VM.exec (the script was running)
+	Script bool   // the INNERMOST frames of the dying goroutine cycle through VM.exec: the script itself recurses
+	Where  string // innermost goatlang function of the dying goroutine
+}
+
+// c03Dying looks at the trace Go prints for a fatal error: the goroutine's innermost 50 frames come first, then
+// "...N frames elided...", then the outermost ones.  A script that recurses shows (*VM).exec among the innermost
+// frames; a runaway recursion of the HOST side (e.g. the value stringer on cyclic data) does not.
+func c03Dying(stderr string) (script bool, where string) {
+	i := strings.Index(stderr, "\ngoroutine ")
+	if i < 0 {
+		return false, ""
+	}
+	top := stderr[i:]
+	if k := strings.Index(top, "frames elided"); k >= 0 {
+		top = top[:k]
+	} else if k := strings.Index(top[1:], "\ngoroutine "); k >= 0 {
+		top = top[:k+1]
+	}
+	// the functions among the innermost frames (a recursion shows its whole cycle, whichever frame happens to be on top)
+	seen := map[string]bool{}
+	var fs []string
+	for _, m := range c03Frame.FindAllStringSubmatch(top, -1) {
+		if !seen[m[1]] && len(fs) < 4 {
+			seen[m[1]] = true
+			fs = append(fs, m[1])
+		}
+	}
+	sort.Strings(fs)
+	where = strings.Join(fs, " + ")
+	return strings.Contains(top, "goatlang.(*VM).exec("), where
 }
 
 // c03RunBatch runs jobs in child processes until every job has a result or is recorded as a death.
@@ -511,7 +553,9 @@ func c03RunBatch(tmp string, tag string, jobs []c03Job) (results map[int]c03Resu
 		}
 		if len(next) == len(rest) && current < 0 && !killed {
 			// the child died before starting anything
-			deaths = append(deaths, c03Death{ID: next[0].ID, Stderr: clip(stderr.String(), 1500), Why: "child produced no result", InRun: strings.Contains(stderr.String(), "goatlang.(*VM).exec")})
+			d := c03Death{ID: next[0].ID, Stderr: clip(stderr.String(), 1500), Why: "child produced no result", InRun: strings.Contains(stderr.String(), "goatlang.(*VM).exec")}
+			d.Script, d.Where = c03Dying(stderr.String())
+			deaths = append(deaths, d)
 			next = next[1:]
 		} else if current >= 0 {
 			// the child died (or was killed) inside job `current`
@@ -519,7 +563,9 @@ func c03RunBatch(tmp string, tag string, jobs []c03Job) (results map[int]c03Resu
 			if killed {
 				why = "child unresponsive (killed)"
 			}
-			deaths = append(deaths, c03Death{ID: current, Stderr: clip(stderr.String(), 1500), Why: why, InRun: strings.Contains(stderr.String(), "goatlang.(*VM).exec")})
+			d := c03Death{ID: current, Stderr: clip(stderr.String(), 1500), Why: why, InRun: strings.Contains(stderr.String(), "goatlang.(*VM).exec")}
+			d.Script, d.Where = c03Dying(stderr.String())
+			deaths = append(deaths, d)
 			var n2 []c03Job
 			for _, j := range next {
 				if j.ID != current {
@@ -621,6 +667,22 @@ func c03GenJob(r *rng, c *c03Corpus, id int) c03Job {
 		j.Entry, j.Src, j.Class = "eval", c.pending[0], "mut-trunc-sweep"
 		c.pending = c.pending[1:]
 		j.Fname, j.Files = "eval", c03EvalFS()
+		return j
+	}
+	if r.intn(100) < 7 {
+		// terminating scripts that build cyclic data and render it through some route
+		if r.chance(70) {
+			j.Entry, j.Class = "eval", "cyclic-data"
+			j.Src = c03CyclicEval(r)
+			j.Fname, j.Files = "eval", c03EvalFS()
+			if r.chance(30) {
+				j.Calls = []c03Call{{Kind: "call", Name: "main.cycGet", XRets: 1}, {Kind: "call", Name: "main.cycShow", XRets: 0}}
+			}
+		} else {
+			j.Entry, j.Class, j.Arg = "load", "load-cyclic-data", "main"
+			j.Files = map[string]string{"main/main.go": c03CyclicLoad(r)}
+			j.Calls = []c03Call{{Kind: "call", Name: "main.main", XRets: 0}, {Kind: "call", Name: "main.cycGet", XRets: 1}, {Kind: "call", Name: "main.cycShow", XRets: 0}}
+		}
 		return j
 	}
 	switch k := r.intn(100); {
@@ -1060,6 +1122,89 @@ func cmdC03Shrink(a cmdArgs) {
 	emit()
 }
 
+// c03ShrinkDeath minimises a job that KILLS the child (fatal error): every candidate runs in a child of its own.
+func c03ShrinkDeath(tmp string, idx int, j c03Job, where string, deadline time.Time) c03Job {
+	n := 0
+	dies := func(c *c03Job) bool {
+		n++
+		c.ID = 0
+		_, ds := c03RunBatch(tmp, fmt.Sprintf("sd%d_%d", idx, n), []c03Job{*c})
+		return len(ds) > 0 && ds[0].Where == where
+	}
+	if !dies(&j) {
+		return j
+	}
+	try := func(c c03Job) {
+		if time.Now().Before(deadline) && dies(&c) {
+			j = c
+		}
+	}
+	if len(j.Calls) > 0 {
+		c := j
+		c.Calls = nil
+		try(c)
+	}
+	if j.Opts != 0 {
+		c := j
+		c.Opts = 0
+		try(c)
+	}
+	shrinkText := func(get func(*c03Job) string, set func(*c03Job, string)) {
+		test := func(p []string) bool { c := j; set(&c, strings.Join(p, "")); return dies(&c) }
+		for _, split := range []func(string) []string{
+			func(s string) []string { return strings.SplitAfter(s, "\n") },
+			func(s string) []string { return strings.SplitAfter(s, ";") },
+			c03Lex,
+		} {
+			pieces := split(get(&j))
+			if len(pieces) > 400 {
+				continue
+			}
+			pieces = c03DD(pieces, test, deadline)
+			set(&j, strings.Join(pieces, ""))
+		}
+	}
+	if j.Entry == "eval" {
+		if !j.NilFS && len(j.Files) > 0 {
+			c := j
+			c.Files = map[string]string{}
+			try(c)
+		}
+		shrinkText(func(c *c03Job) string { return c.Src }, func(c *c03Job, s string) { c.Src = s })
+		return j
+	}
+	var names []string
+	for k := range j.Files {
+		names = append(names, k)
+	}
+	sort.Strings(names)
+	names = c03DD(names, func(keep []string) bool {
+		c := j
+		c.Files = map[string]string{}
+		for _, k := range keep {
+			c.Files[k] = j.Files[k]
+		}
+		return dies(&c)
+	}, deadline)
+	nf := map[string]string{}
+	for _, k := range names {
+		nf[k] = j.Files[k]
+	}
+	j.Files = nf
+	for _, k := range names {
+		k := k
+		shrinkText(func(c *c03Job) string { return c.Files[k] }, func(c *c03Job, s string) {
+			m := map[string]string{}
+			for kk, v := range c.Files {
+				m[kk] = v
+			}
+			m[k] = s
+			c.Files = m
+		})
+	}
+	return j
+}
+
 func c03Shrink(tmp string, idx int, j c03Job, s c03Sig, ms int) (c03Job, bool) {
 	self, _ := os.Executable()
 	file := filepath.Join(tmp, fmt.Sprintf("shrink_%d.json", idx))
@@ -1174,6 +1319,7 @@ func cmdC03Fuzz(a cmdArgs) {
 
 	// outcome distribution
 	outcomes := map[string]int{}
+	cyclic := map[string]int{} // what became of the scripts that render cyclic data
 	optsSeen := map[string]int{}
 	callOutcomes := map[string]int{}
 	type found struct {
@@ -1202,6 +1348,9 @@ func cmdC03Fuzz(a cmdArgs) {
 			excepted++
 		}
 		outcomes[key]++
+		if strings.Contains(j.Class, "cyclic") {
+			cyclic[j.Class+" -> "+res.Main.Outcome+" "+res.Main.Stage]++
+		}
 		for k, c := range res.Calls {
 			ck := j.Calls[k].Kind + ": " + c.Outcome
 			if c.Outcome == "timeout" {
@@ -1226,31 +1375,73 @@ func cmdC03Fuzz(a cmdArgs) {
 	for i := range jobs {
 		byID[jobs[i].ID] = &jobs[i]
 	}
+	type dead struct {
+		job   c03Job
+		d     c03Death
+		fatal string
+		n     int
+	}
+	deadGroups := map[string]*dead{}
+	var deadOrder []string
 	for _, d := range deaths {
 		j := byID[d.ID]
 		fatal := firstLine(d.Stderr)
 		if i := strings.Index(d.Stderr, "fatal error:"); i >= 0 {
 			fatal = firstLine(d.Stderr[i:])
 		}
-		inRun := d.InRun
-		if inRun && (strings.Contains(fatal, "stack overflow") || strings.Contains(d.Stderr, "stack exceeds")) {
+		overflow := strings.Contains(fatal, "stack overflow") || strings.Contains(d.Stderr, "stack exceeds")
+		if overflow && d.Script {
+			// the innermost frames cycle through VM.exec: the script itself recurses without bound
 			outcomes[j.Entry+": child died in the run stage from unbounded script recursion (excepted)"]++
 			excepted++
 			continue
 		}
-		if inRun && (strings.Contains(d.Stderr, "out of memory") || strings.Contains(d.Stderr, "cannot allocate")) {
+		if d.InRun && !overflow && (strings.Contains(d.Stderr, "out of memory") || strings.Contains(d.Stderr, "cannot allocate")) {
 			// the child's address space is limited to 6 GB: a script that allocates more dies here, not necessarily on a real host
 			outcomes[j.Entry+": child ran out of its 6 GB address space in the run stage (resource candidate, not failed)"]++
 			resourceCandidates = append(resourceCandidates, map[string]string{"entry": j.Entry, "class": j.Class, "input": c03Describe(j.Src), "fatal": fatal})
 			continue
 		}
-		outcomes[j.Entry+": HOST DIES ("+fatal+")"]++
-		f := c03Failing{Kind: "host-dies", Entry: map[string]string{"eval": "Eval", "load": "Load"}[j.Entry], Stage: map[bool]string{true: "run", false: "front end"}[inRun],
-			Panic: fatal, Options: optNames(j.Opts), Class: j.Class, Input: c03Describe(j.Src), Arg: j.Arg, OrigLen: jobSize(j), Detail: d.Why + "; " + clip(d.Stderr, 600)}
-		if j.Entry == "load" {
-			f.Files = j.Files
+		outcomes[j.Entry+": HOST DIES ("+fatal+" in "+d.Where+")"]++
+		gk := "host-dies|" + j.Entry + "|" + fatal + "|" + d.Where
+		if cur, ok := deadGroups[gk]; !ok {
+			deadGroups[gk] = &dead{*j, d, fatal, 1}
+			deadOrder = append(deadOrder, gk)
+		} else {
+			cur.n++
+			if jobSize(j) < jobSize(&cur.job) {
+				cur.job, cur.d = *j, d
+			}
 		}
-		st.mismatchG("host-dies|"+fatal, f)
+	}
+	deathMS := 8000
+	if a.thorough {
+		deathMS = 40000
+	}
+	for k, gk := range deadOrder {
+		dg := deadGroups[gk]
+		j := c03ShrinkDeath(tmp, k, dg.job, dg.d.Where, time.Now().Add(time.Duration(deathMS)*time.Millisecond))
+		stage := "host side, while the script runs (not a recursion of the script)"
+		if !dg.d.InRun {
+			stage = "outside the running script"
+		}
+		f := c03Failing{Kind: "host-dies", Entry: map[string]string{"eval": "Eval", "load": "Load"}[j.Entry], Stage: stage,
+			Panic: dg.fatal, Where: dg.d.Where, Options: optNames(j.Opts), Class: dg.job.Class, NilFS: j.NilFS, Arg: j.Arg, JobGz: c03Pack(&j),
+			Shrunk: jobSize(&j) < jobSize(&dg.job), OrigLen: jobSize(&dg.job),
+			Detail: fmt.Sprintf("%d inputs of this run kill the child this way; %s; %s", dg.n, dg.d.Why, clip(dg.d.Stderr, 500))}
+		if j.Entry == "load" {
+			f.Files = map[string]string{}
+			for kk, v := range j.Files {
+				f.Files[kk] = clip(c03Describe(v), 3000)
+			}
+		} else {
+			f.Input, f.Fname = c03Describe(j.Src), clip(j.Fname, 50)
+		}
+		if len(j.Calls) > 0 {
+			f.Detail = fmt.Sprintf("calls after it: %d; ", len(j.Calls)) + f.Detail
+		}
+		st.mismatchG(gk, f)
+		st.Groups[gk] = dg.n
 	}
 	// minimise one representative per class (in children, in parallel)
 	shrinkMS := 6000
@@ -1315,6 +1506,7 @@ func cmdC03Fuzz(a cmdArgs) {
 		st.MismatchN += v
 	}
 	st.Extra["outcomes"] = outcomes
+	st.Extra["cyclic_data_outcomes"] = cyclic
 	st.Extra["call_outcomes"] = callOutcomes
 	st.Extra["options"] = optsSeen
 	st.Extra["excepted_non_terminating_scripts"] = excepted
